@@ -101,6 +101,25 @@ tx transfer(quantity: Int) {
     output { to: Sender, amount: source - fees + AnyAsset(0x""" + "ab" * 28 + """, "t", 1), }
     cardano::plutus_witness { version: """ + str(_v) + """, script: 0x4e4d01000033222220051200120011, }
 }"""
+# thresholds whose amount is not a number when the inputs are looked for: ill-typed (the fee is a value, not an Int),
+# waiting for the datum of another input, or for a compiler built-in -- an error or a resolution, never a panic
+SRC["min_is_ada_of_fees"] = """party Sender;
+tx transfer(quantity: Int) {
+    input source { from: Sender, min_amount: Ada(fees), }
+    output { to: Sender, amount: source - fees, }
+}"""
+SRC["min_from_other_input"] = """party Sender;
+type D { v: Int, }
+tx transfer(quantity: Int) {
+    input first { from: Sender, datum_is: D, min_amount: Ada(quantity), }
+    input source { from: Sender, min_amount: Ada(first.v), }
+    output { to: Sender, amount: source + first - fees, }
+}"""
+SRC["min_is_ada_of_min_utxo"] = """party Sender;
+tx transfer(quantity: Int) {
+    input source { from: Sender, min_amount: Ada(min_utxo(o)) + AnyAsset(0x""" + "ab" * 28 + """, "t", fees), }
+    output o { to: Sender, amount: source - fees, }
+}"""
 KIND = {"transfer": "transfer", "transfer_nofee_min": "transfer", "transfer_min": "transfer_min"}
 
 
